@@ -147,6 +147,7 @@ impl TFault {
             TFault::S(StructFault::Empty(_)) => json!({"k": "empty", "path": p}),
             TFault::S(StructFault::SetNull(_)) => json!({"k": "set_null", "path": p}),
             TFault::S(StructFault::FillNull(_)) => json!({"k": "fill_null", "path": p}),
+            TFault::S(StructFault::FillNullFrom(_, k)) => json!({"k": "fill_null_from", "path": p, "from": k}),
             TFault::S(StructFault::IntSet(_, v)) => json!({"k": "int", "path": p, "v": v}),
             TFault::Replace { value, tag, .. } => json!({"k": "replace", "path": p, "v": value, "tag": tag}),
         }
@@ -159,6 +160,7 @@ impl TFault {
             "empty" => TFault::S(StructFault::Empty(p)),
             "set_null" => TFault::S(StructFault::SetNull(p)),
             "fill_null" => TFault::S(StructFault::FillNull(p)),
+            "fill_null_from" => TFault::S(StructFault::FillNullFrom(p, v["from"].as_str()?.to_string())),
             "int" => TFault::S(StructFault::IntSet(p, v["v"].as_u64()?)),
             "replace" => TFault::Replace {
                 path: p,
@@ -1013,6 +1015,13 @@ fn main() {
     // stage → outcome → n ; class → outcome → n
     let by_stage: Mutex<BTreeMap<String, BTreeMap<String, u64>>> = Mutex::new(BTreeMap::new());
     let by_class: Mutex<BTreeMap<String, BTreeMap<String, u64>>> = Mutex::new(BTreeMap::new());
+    // clause (a) reference: the (family | fault class) pairs for which construction returns an
+    // error for EVERY case of EVERY configuration on the reference tree (written by a thorough
+    // run with --opt dump_err_classes=<file>, committed as harness/c15/err_classes.json). A
+    // class in this table whose case now gets a circuit is "a malformed shape no longer rejected".
+    let err_table: std::collections::BTreeSet<String> =
+        serde_json::from_str::<Vec<String>>(include_str!("../err_classes.json")).unwrap_or_else(|e| machinery_error(&format!("err_classes.json: {e}"))).into_iter().collect();
+    let by_family_class: Mutex<BTreeMap<String, BTreeMap<String, u64>>> = Mutex::new(BTreeMap::new());
     let native_panics: Mutex<BTreeMap<String, u64>> = Mutex::new(BTreeMap::new());
     let unjudged_param: Mutex<BTreeMap<String, u64>> = Mutex::new(BTreeMap::new());
     let smaller: Mutex<BTreeMap<String, u64>> = Mutex::new(BTreeMap::new());
@@ -1068,6 +1077,22 @@ fn main() {
             let class = case.class(&fx);
             *by_stage.lock().unwrap().entry(if j.stage.is_empty() { "parse".into() } else { j.stage.clone() }).or_default().entry(j.outcome.clone()).or_default() += 1;
             *by_class.lock().unwrap().entry(class.clone()).or_default().entry(j.outcome.clone()).or_default() += 1;
+            let fam_class = format!("{}|{}", family(&fx), class);
+            *by_family_class.lock().unwrap().entry(fam_class.clone()).or_default().entry(j.outcome.clone()).or_default() += 1;
+            if err_table.contains(&fam_class) && j.native_tag.starts_with("reject") && matches!(j.outcome.as_str(), "run_reject" | "ok+native_reject") {
+                report.violation_sized(
+                    format!("accepted_at_construction|{}|{}", case.key_class(&fx), family(&fx)),
+                    format!(
+                        "{}: {} → a verification circuit is returned (outcome {}, native {}); construction rejects every alteration of this class with an error on the reference tree",
+                        fx.name,
+                        case.show(),
+                        j.outcome,
+                        j.native_tag
+                    ),
+                    json!({"config": fx.name, "case": case.to_json(), "class": class, "judged": j.to_json()}),
+                    ci * 1_000_000 + idx,
+                );
+            }
             if j.native_tag.starts_with("reject") {
                 nt.fetch_add(1, Ordering::Relaxed);
                 if let (Some(sg), Some(h)) = (j.sig, honest_sig) {
@@ -1172,6 +1197,17 @@ fn main() {
     let per_config: Vec<Value> = per_config.into_iter().map(|x| x.1).collect();
 
     let samples: Vec<Value> = samples.into_inner().unwrap().into_values().flatten().collect();
+    if let Some(path) = ctx.opt("dump_err_classes") {
+        let t: Vec<String> = by_family_class
+            .lock()
+            .unwrap()
+            .iter()
+            .filter(|(_, o)| o.get("err").copied().unwrap_or(0) > 0 && o.keys().all(|k| k == "err" || k == "not_a_proof"))
+            .map(|(k, _)| k.clone())
+            .collect();
+        std::fs::write(path, serde_json::to_string_pretty(&t).unwrap()).unwrap_or_else(|e| machinery_error(&format!("dump_err_classes: {e}")));
+        println!("[C15] wrote {} construction-error reference classes to {path}", t.len());
+    }
     let cov = json!({
         "evaluations": evaluations,
         "distinct_nontrivial": nontrivial,
@@ -1192,6 +1228,7 @@ fn main() {
         "outcome_histogram": outcomes.to_json(),
         "outcomes_by_entry_point": *by_stage.lock().unwrap(),
         "outcomes_by_fault_class": *by_class.lock().unwrap(),
+        "construction_error_reference_classes": err_table.len(),
         "native_panics_recorded_not_judged": *native_panics.lock().unwrap(),
         "circuit_ok_native_reject_not_judged(parameter_not_in_circuit_api_or_inconsistent_set)": *unjudged_param.lock().unwrap(),
         "returned_circuit_smaller_than_honest_while_native_rejects": *smaller.lock().unwrap(),
